@@ -41,6 +41,7 @@ type c08Case struct {
 	ParentMismatch bool     `json:"parent_mismatch"` // the parent of the first sublayout step REQUIREs a product the sublayout does not deliver
 	ParentForbids  bool     `json:"parent_forbids"`  // the parent DISALLOWs an artifact that only exists inside the sublayout (must still accept)
 	CertSub        bool     `json:"cert_sub"`        // legacy wrapper: one functionary of the first root-level sublayout step is authorised by certificate
+	InnerCert      string   `json:"inner_cert,omitempty"` // legacy wrapper: "" | own | parent-only: the first leaf step inside a sublayout needs a certificate functionary whose intermediate CA the sublayout lists itself / only the root layout lists
 	LinkDirRel     bool     `json:"link_dir_rel,omitempty"` // the link directory is handed over relative to the working directory
 }
 
@@ -137,6 +138,9 @@ func c08Gen(t *rapid.T) c08Case {
 	c08Wide = false
 	c.Evil = rapid.IntRange(0, 2).Draw(t, "evil") == 0
 	c.CertSub = c.Wrapper == "legacy" && rapid.IntRange(0, 2).Draw(t, "certsub") == 0
+	if c.Wrapper == "legacy" {
+		c.InnerCert = rapid.SampledFrom([]string{"", "", "", "own", "parent-only"}).Draw(t, "innercert")
+	}
 	c.LinkDirRel = rapid.IntRange(0, 2).Draw(t, "linkdirrel") == 0
 	switch rapid.IntRange(0, 9).Draw(t, "variant") {
 	case 0:
@@ -160,7 +164,35 @@ func c08Gen(t *rapid.T) c08Case {
 			last.Sub.Steps[len(last.Sub.Steps)-1].Creates = ""
 		}
 	}
+	if c.InnerCert != "" {
+		// the step that needs the certificate functionary must matter: nothing else is wrong, and every
+		// sublayout on the way down to it is needed by its parent step
+		clearDefects(&c.Root)
+		if !c08NeedFirstInnerLeaf(&c.Root, true) {
+			c.InnerCert = ""
+		}
+	}
 	return c
+}
+
+// c08NeedFirstInnerLeaf makes every sublayout step on the way to the first leaf step inside a sublayout
+// (depth-first, the order in which the builder visits them) need all its functionaries' sublayouts.
+func c08NeedFirstInnerLeaf(lv *c08Level, isRoot bool) bool {
+	for i := range lv.Steps {
+		st := &lv.Steps[i]
+		if st.Sub == nil {
+			if !isRoot {
+				return true
+			}
+			continue
+		}
+		st.Plain = false
+		st.Threshold = len(st.Functionaries)
+		if c08NeedFirstInnerLeaf(st.Sub, false) {
+			return true
+		}
+	}
+	return false
 }
 
 type c08Builder struct {
@@ -174,6 +206,7 @@ type c08Builder struct {
 	firstSub bool
 	certs   map[string]*hx.BuiltCert
 	usedPKI bool
+	innerCertName string // the leaf step (inside sublayouts) that needs a certificate functionary, in every functionary's copy
 	variant string // appended to the content of created files (one functionary's own, internally consistent, chain)
 }
 
@@ -203,9 +236,34 @@ func (b *c08Builder) buildLevel(lv c08Level, dir string, isRoot bool) hx.MLayout
 	if lv.Expired {
 		lay.Expires = "2001-01-01T00:00:00Z"
 	}
+	if isRoot && b.c.InnerCert != "" && b.certs != nil {
+		// the root layout knows the intermediate CA (for functionaries of its own): that is the root layout's business
+		ik := hx.MKeyFromLib(b.certs["inter"].KeyObject())
+		lay.IntermediateCas = hx.MKeys{ik.KeyID: ik}
+	}
 	prev := ""
 	for _, st := range lv.Steps {
+		innerCert := false
+		if !isRoot && st.Sub == nil && st.Defect == "" && b.c.InnerCert != "" && b.certs != nil && (b.innerCertName == "" || b.innerCertName == st.Name) {
+			// every listed functionary AND one authorised by certificate are needed for this step
+			b.innerCertName, b.usedPKI, innerCert = st.Name, true, true
+			st.Functionaries = append(append([]string{}, st.Functionaries...), "pki:leaf2")
+			st.Threshold = len(st.Functionaries)
+			st.DefectAt = -1
+		}
 		ms := hx.MStep{Type: "step", Name: st.Name, PubKeys: pubKeyIDs(st.Functionaries), ExpCommand: []string{}, Threshold: st.Threshold}
+		if innerCert {
+			ms.Constraints = []hx.MConstraint{{CommonName: "*", DNSNames: []string{"*"}, Emails: []string{"*"}, Organizations: []string{"*"}, Roots: []string{"*"}, URIs: []string{"*"}}}
+			rk := hx.MKeyFromLib(b.certs["root"].KeyObject())
+			lay.RootCas = hx.MKeys{rk.KeyID: rk}
+			if b.c.InnerCert == "own" {
+				ik := hx.MKeyFromLib(b.certs["inter"].KeyObject())
+				lay.IntermediateCas = hx.MKeys{ik.KeyID: ik}
+			} else {
+				// a sublayout is verified like a root layout: with its own certificate authorities
+				b.defects = append(b.defects, "sub-intermediate-only-in-parent@"+st.Name)
+			}
+		}
 		for _, f := range st.Functionaries {
 			if strings.HasPrefix(f, "pki:") {
 				continue
@@ -236,9 +294,8 @@ func (b *c08Builder) buildLevel(lv c08Level, dir string, isRoot bool) hx.MLayout
 			}
 			after := copyFiles(b.tree)
 			for fi, f := range st.Functionaries {
-				k := hx.PoolKey(f)
 				link := hx.MLink{Type: "link", Name: st.Name, Materials: hx.ArtifactsOf(before), Products: hx.ArtifactsOf(after), ByProducts: hx.MObj{}, Command: []string{}, Environment: hx.MObj{}}
-				file := hx.WMetaFile{Name: dir + hx.LinkFileName(st.Name, k.KeyID), Wrapper: b.c.Wrapper, Meta: hx.MMeta{Link: &link}, Sigs: []hx.WSig{{Key: f}}}
+				file := hx.WMetaFile{Name: dir + hx.LinkFileName(st.Name, b.funcKeyID(f)), Wrapper: b.c.Wrapper, Meta: hx.MMeta{Link: &link}, Sigs: []hx.WSig{{Key: f, WithCert: strings.HasPrefix(f, "pki:")}}}
 				if fi == st.DefectAt {
 					// a link that does not count is absorbed when the remaining functionaries still meet the threshold
 					uncount := func(kind string) {
@@ -471,7 +528,7 @@ func c08Run(c c08Case, r *hx.Rec) error {
 		return nil
 	}
 	b := &c08Builder{c: c, tree: map[string]string{"seed.txt": "seed\n"}}
-	if c.CertSub {
+	if c.CertSub || c.InnerCert != "" {
 		certs, err := hx.BuildPKI(c02PKI())
 		if err != nil {
 			return fmt.Errorf("harness: %v", err)
